@@ -174,6 +174,77 @@ def probe_behaviour(ad, ex, problems, txt):
             problems.append(("behaviour", f"{txt}: full occurrence {label} found although the type forbids it ({m})"))
 
 
+JSON_TYPE = {"BackAdapter": "regular_three_prime", "FrontAdapter": "regular_five_prime", "AnywhereAdapter": "anywhere",
+             "PrefixAdapter": "anchored_five_prime", "SuffixAdapter": "anchored_three_prime",
+             "NonInternalFrontAdapter": "noninternal_five_prime", "NonInternalBackAdapter": "noninternal_three_prime",
+             "RightmostFrontAdapter": "rightmost_five_prime"}
+
+
+def cli_attributes_case(ctx, k):
+    """The same meaning through the real command line: global options (-e, -O, --no-indels) are defaults that the
+    parameters after ';' override; read back from the adapter section of the JSON report (type, sequence, error rate, indels)."""
+    import json as _json
+
+    rng = ctx.rng("c18cli", k)
+    glob = dict(e=rng.choice([0.1, 0.2, 0, 0, 1, 0.05]), o=rng.choice([3, 1, 5]), indels=rng.random() < 0.6, aw=True, rw=False)
+    gargs = ["-e", str(glob["e"]), "-O", str(glob["o"])] + ([] if glob["indels"] else ["--no-indels"])
+    specs, argv_ads = [], []
+    for i in range(rng.randint(1, 4)):
+        typ = rng.choice(["front", "back", "anywhere"])
+        d = gen_single(rng, typ, allow_flags=False)
+        if rng.random() < 0.15 and typ == "front" and d["restr"] is None:
+            d["params"]["rightmost"] = True
+            d["ptxt"].append("rightmost")
+        norm = R.normalize_adapter(d["seq"])
+        e_eff = d["params"].get("e", glob["e"])
+        if e_eff >= 1 and e_eff / max(1, len(norm) - norm.count("N")) >= 1:
+            continue
+        name = f"n{i}"
+        spec = f"{name}=" + d["text"] + (";" + ";".join(d["ptxt"]) if d["ptxt"] else "")
+        specs.append((d, name, spec, typ))
+        argv_ads += [{"front": "-g", "back": "-a", "anywhere": "-b"}[typ], spec]
+    if not specs:
+        ctx.case(None)
+        return
+    d_ = os.path.join(ctx.scratch, f"cliattr{k}")
+    os.makedirs(d_, exist_ok=True)
+    try:
+        with open(os.path.join(d_, "in.fq"), "w") as f:
+            f.write("@r1\nACGTACGTACGT\n+\nIIIIIIIIIIII\n")
+        argv = gargs + argv_ads
+        rng.shuffle(argv_ads)   # only a record; the real order is kept below
+        argv = (gargs + [x for sp in specs for x in ({"front": "-g", "back": "-a", "anywhere": "-b"}[sp[3]], sp[2])]) if rng.random() < 0.5 else \
+               ([x for sp in specs for x in ({"front": "-g", "back": "-a", "anywhere": "-b"}[sp[3]], sp[2])] + gargs)
+        argv += ["--json", "rep.json", "-o", "out.fq", "in.fq"]
+        run = climon.run(d_, argv, tag="attr", trace=False, timeout=60)
+        case = dict(cli_attr=True, k=k, argv=argv)
+        ctx.case(("cliattr", str(argv)))
+        ctx.count("cli_attribute_runs")
+        if run.rc != 0:
+            ctx.violation("rejected", f"valid command line rejected (exit {run.rc}): {run.err.strip().splitlines()[-1][:200] if run.err.strip() else ''}; argv={argv}", case, klass="cli")
+            return
+        with open(os.path.join(d_, "rep.json")) as f:
+            rep = _json.load(f)["adapters_read1"]
+        if len(rep) != len(specs):
+            ctx.violation("count", f"{len(rep)} adapters in the report for {len(specs)} specifications; argv={argv}", case, klass="cli")
+            return
+        for (d, name, spec, typ), ar in zip(specs, rep):
+            ex = expect_single(d, glob, name)
+            want_type = JSON_TYPE[ex["cls"].__name__]
+            ends = [e for e in (ar["five_prime_end"], ar["three_prime_end"]) if e]
+            for e in ends:
+                got = dict(type=e["type"], seq=e["sequence"], rate=e["error_rate"], indels=e["indels"])
+                for key, a, b in (("cls", got["type"], want_type), ("seq", got["seq"], ex["seq"]), ("indels", got["indels"], ex["indels"])):
+                    if a != b:
+                        ctx.violation(key, f"command line {argv}: adapter {name} ({spec}) reported with {key}={a!r}, documented {b!r}", case, klass="cli" + key)
+                if abs(got["rate"] - ex["rate"]) > 1e-9:
+                    ctx.violation("rate", f"command line {argv}: adapter {name} ({spec}) reported with error rate {got['rate']!r}, documented {ex['rate']!r}", case, klass="clirate")
+            if ar["name"] != name:
+                ctx.violation("name", f"command line {argv}: adapter reported as {ar['name']!r}, documented {name!r}", case, klass="cliname")
+    finally:
+        shutil.rmtree(d_, ignore_errors=True)
+
+
 def gen_invalid(ctx, rng):
     """A generated valid specification made invalid in one documented way: it must be rejected with one of the
     exception types the command line turns into an error message and exit status 2."""
@@ -530,6 +601,8 @@ def run_shard(ctx):
         gen_and_check(ctx, rng)
         if i % 12 == 0:
             gen_invalid(ctx, rng)
+    for k in range(ctx.scale(12, 200)):
+        cli_attributes_case(ctx, ctx.shard * 100000 + k)
     if ctx.shard == 0:
         cli_invalid(ctx)
 
@@ -540,6 +613,10 @@ def replay(ctx, case):
         return
     from cutadapt.parser import make_adapters_from_specifications
 
+    if case.get("cli_attr"):
+        ctx.shard = case["k"] // 100000
+        cli_attributes_case(ctx, case["k"])
+        return
     if case.get("invalid_api"):
         from cutadapt.adapters import InvalidCharacter
         ctx.case(("replay", case["spec"]))
